@@ -32,7 +32,8 @@ if os.path.realpath(_REPO) != "/repo":
     shutil.copy(os.path.join(_REPO, "Cargo.lock"), os.path.join(_copy, "Cargo.lock")) if False else None
     HERE = _copy
     TARGET = "/verif/cache/replay-target-" + _tag
-    _sfx = "-nightly" if os.environ.get("VERIF_WITNESS_FLAVOUR", "") == "nightly" else ""
+    _fl = os.environ.get("VERIF_WITNESS_FLAVOUR", "")
+    _sfx = ("-" + _fl) if _fl in ("nightly", "simd") else ""
     if not os.path.isdir(TARGET + _sfx) and os.path.isdir("/verif/cache/replay-target" + _sfx):
         # start from the compiled dependencies of the main target (only dryoc and the witness itself are rebuilt)
         subprocess.run(["cp", "-a", "/verif/cache/replay-target" + _sfx, TARGET + _sfx])
@@ -42,6 +43,10 @@ CARGO = ["cargo", "build", "--release", "--offline"]
 if FLAVOUR == "nightly":
     TARGET = TARGET + "-nightly"
     CARGO = ["cargo", "+nightly", "build", "--release", "--offline", "--features", "nightly"]
+elif FLAVOUR == "simd":
+    # third flavour: dryoc built with its portable-SIMD BLAKE2b backend (feature simd_backend, nightly toolchain)
+    TARGET = TARGET + "-simd"
+    CARGO = ["cargo", "+nightly", "build", "--release", "--offline", "--features", "simd"]
 BINARY = os.path.join(TARGET, "release", "witness")
 BUILD_TIMEOUT = 900
 RUN_TIMEOUT = {"quick": 60, "thorough": 400}
